@@ -216,6 +216,9 @@ func (fr *frame) callEffects(cc *ssa.CallCommon) (keys map[string]bool, all bool
 		}
 		return keys, true
 	case callContract:
+		for _, gs := range ctr.GhostSets {
+			keys["G:"+gs.Name] = true // ghost code at the callee's exit
+		}
 		if ctr.Pure || (!ctr.HasMod && !ctr.Trusted) {
 			return keys, false
 		}
@@ -1218,11 +1221,16 @@ func (fr *frame) rangeNext(in *ssa.Next, st *State, R string) {
 	s := P.SeqSort(ri.ks)
 	mv, _, _, _ := fc.mapComps(ri.mt)
 	fc.fact("", "(= %s_r0 (< %s (len_%s %s)))", n, pos, s, ri.keys)
-	fc.fact("", "(=> %s_r0 (= %s_r1 (at_%s %s %s)))", n, n, s, ri.keys, pos)
+	// (for _, v := range m leaves the key component untyped: the current key is then a fresh constant of the key sort)
+	keyTerm := n + "_r1"
+	if tup.Len() < 2 || P.SortOf(tup.At(1).Type()) != ri.ks {
+		keyTerm = fc.freshConst(n+"_key", ri.ks)
+	}
+	fc.fact("", "(=> %s_r0 (= %s (at_%s %s %s)))", n, keyTerm, s, ri.keys, pos)
 	// value as of now (deleting other keys during iteration is not modelled)
 	if tup.Len() > 2 && P.SortOf(tup.At(2).Type()) == P.SortOf(ri.mt.Elem()) {
 		// (for k := range m leaves the value component untyped)
-		fc.fact("", "(=> %s_r0 (= %s_r2 (select (select %s %s) %s_r1)))", n, n, fc.lookup(st, mv), ri.m, n)
+		fc.fact("", "(=> %s_r0 (= %s_r2 (select (select %s %s) %s)))", n, n, fc.lookup(st, mv), ri.m, keyTerm)
 		fr.loadedAssume(n+"_r2", ri.mt.Elem(), st)
 	}
 	st.comp[key] = fmt.Sprintf("(ite %s_r0 (+ %s 1) %s)", n, pos, pos)
